@@ -728,7 +728,8 @@ def coverage_run():
     from a run of the same machine with the constants of MC_Text and only
     TypeOK (Text_cov.cfg); the law-checking runs prove their own non-vacuity
     through the exported vectors (every AppendChar / AppendFmt outcome must
-    appear)."""
+    appear; Scale must have reached the exponent notation, the numbers below
+    0.0001 and the magnitudes that are not judged)."""
     res = tlc.run('MC_Text', 'Text_cov.cfg', workers=2, coverage=True,
                   timeout=600, heap='1g', env={
                       'JDK_JAVA_OPTIONS': '-XX:ParallelGCThreads=2 -XX:TieredStopAtLevel=1'})
@@ -736,7 +737,7 @@ def coverage_run():
         raise tlc.MachineryFailure(
             f'Text model (coverage run) violates {res.violated}:\n'
             + res.stdout[-2000:])
-    for act in ('AppendChar', 'AppendFmt'):
+    for act in ('AppendChar', 'AppendFmt', 'Scale'):
         if res.coverage.get(act, (0, 0))[1] == 0:
             raise tlc.MachineryFailure(f'vacuous: action {act} never taken')
     return dict(coverage={k: list(c) for k, c in res.coverage.items()},
